@@ -853,7 +853,16 @@ fn run_pazip(v: &str, x: &[u8], _t: &[u8], _tr: Train) -> Outcome {
         },
     );
     // pass classes show which strategies the selector used (vacuity check: matches must occur)
-    match outcome(x, "roundtrip", rt, |sym| join(&[preset, sym, len_class(x.len()), alpha_class(x)])) {
+    // the reference-encoding preset writes a format `decompress` has no parser for: one class whatever the symptom
+    let reference = pazip_config(preset).use_reference_encoding;
+    let class = |sym: &str| {
+        if reference {
+            "use_reference_encoding".to_string()
+        } else {
+            join(&[preset, sym, len_class(x.len()), alpha_class(x)])
+        }
+    };
+    match outcome(x, "roundtrip", rt, class) {
         Outcome::Pass { nontrivial, class } => Outcome::Pass { nontrivial, class: format!("{class}|strategies={}", used.borrow()) },
         o => o,
     }
@@ -1075,6 +1084,8 @@ fn main() {
         let gen = if q { def(5, &[N_LZ, N_SMALL], K_GEN, SHAPES_ALL) } else { def(7, &[N_LZ, N_QUICK, N_THOROUGH_EXTRA], K_GEN, SHAPES_ALL) };
         let gen_lz = if q { def(4, &[N_LZ], K_SMALL, SHAPES_ALL) } else { def(6, &[N_LZ, N_SMALL, N_THOROUGH_EXTRA], K_SMALL, SHAPES_ALL) };
         let front = if q { def(4, &[N_SMALL], K_SMALL, SHAPES_ALL) } else { def(6, &[N_QUICK, N_THOROUGH_EXTRA], K_SMALL, SHAPES_ALL) };
+        const N_AD: &[usize] = &[0, 1, 2, 3, 4, 8, 9, 64, 65, 100, 1024, 1025, 4097];
+        let front_ad = if q { def(3, &[N_AD], &[2, 17, 256], SHAPES_ALL) } else { def(5, &[N_SMALL, N_THOROUGH_EXTRA], K_SMALL, SHAPES_ALL) };
         // the inherent SimdLz77 search is O(n * 256 * window): n <= 129
         let tiny = if q { def(4, &[N_TINY], K_SMALL, SH_LZ) } else { def(5, &[N_TINY, &[255, 256, 257]], K_SMALL, SHAPES_ALL) };
         let pazip = if q { def(4, &[N_LZ, &[4096, 4097]], K_SMALL, SHAPES_ALL) } else { def(6, &[N_LZ, N_QUICK, N_THOROUGH_EXTRA], K_SMALL, SHAPES_ALL) };
@@ -1082,28 +1093,28 @@ fn main() {
         let same = vec![Train::Same];
 
         reg.add(Enum(Family {
-            name: "CompressorFactory",
+            name: "Compressors/factory",
             variants: sv(&["None", "Lz4", "Zstd(1)", "Zstd(3)", "Zstd(6)", "Zstd(9)", "Huffman", "Rans", "SimdLz77"]),
             trains: all_tr.clone(),
             space: gen.clone(),
             run: run_factory,
         }));
         reg.add(Enum(Family {
-            name: "CompressorFactory/lz",
+            name: "Compressors/factory-lz",
             variants: sv(&["Dictionary", "Hybrid"]),
             trains: all_tr.clone(),
             space: gen_lz.clone(),
             run: run_factory,
         }));
         reg.add(Enum(Family {
-            name: "NamedCompressors",
+            name: "Compressors/named",
             variants: sv(&["Huffman", "Rans", "None", "Lz4", "Zstd(-7)", "Zstd(0)", "Zstd(19)", "Zstd(22)"]),
             trains: vec![Train::Same, Train::English],
             space: gen.clone(),
             run: run_direct,
         }));
         reg.add(Enum(Family {
-            name: "NamedCompressors/lz",
+            name: "Compressors/named-lz",
             variants: sv(&["Dictionary", "Hybrid"]),
             trains: vec![Train::Same, Train::English],
             space: gen_lz.clone(),
@@ -1124,7 +1135,7 @@ fn main() {
                 }
             }
         }
-        reg.add(Enum(Family { name: "AdaptiveCompressor", variants: ad, trains: same.clone(), space: front.clone(), run: run_adaptive }));
+        reg.add(Enum(Family { name: "AdaptiveCompressor", variants: ad, trains: same.clone(), space: front_ad.clone(), run: run_adaptive }));
         // `train` runs every algorithm (incl. the O(n*window) LZ coder, twice) on the samples: smaller space
         let mut adt = Vec::new();
         for (r, c) in [("speed", "eager"), ("default", "default")] {
